@@ -144,6 +144,14 @@ class Builder:
         names = [c['n'] for c in prog['ctl']]
 
         def body(*ctl):
+            try:
+                return body_(*ctl)
+            except Exception:
+                if hook is not None:
+                    hook(-1, None)          # the function fails (still inside the build)
+                raise
+
+        def body_(*ctl):
             sd = main._current_synthdef
             log['sdef'] = sd
             vals = []
@@ -279,13 +287,23 @@ class Builder:
             #  could make it allocate without bound; the verdict is 'malformed' anyway)
             if desc and rec['parsed']['ok'] == 1:
                 rec['desc'] = [self.describe(lambda: self.sdc.SynthDesc.new_from(sd)),
-                               self.describe(lambda: self.sdc.SynthDesc._read_stream(io.BytesIO(data))[0])]
+                               self.describe(lambda: self.sdc.SynthDesc._read_stream(io.BytesIO(data))[0]),
+                               self.describe(lambda: self.read_file(data))]
             if post is not None:
                 # something done with the finished definition (add / store / ...): recorded, not judged
                 rec['post'] = post(sd, data)
             if gc_safe:
                 release_bytes(sd)
         return rec
+
+    def read_file(self, data):
+        """the same bytes through a real file, definitions kept (what SynthDescLib.read does)"""
+        import pathlib
+        import tempfile
+        with tempfile.TemporaryDirectory(prefix='sg_', dir='.') as d:
+            path = pathlib.Path(d) / 'def.scsyndef'
+            path.write_bytes(data)
+            return self.sdc.SynthDesc.read(path, keep_defs=True)[0]
 
     def describe(self, make):
         """projection of a SynthDesc: name, controls in slot order (name, index, rate, default),
